@@ -215,3 +215,19 @@ def matches_known(kn, op, il, mres, tag):
     if site == "signjar.updateManifest" and f[1] == "jarrepro":
         return int(f[2]) >= 2
     return False
+
+
+# ---- compression layer (checklib/models/chttp.py): CHTTP ops run as a second correspondence under the pseudo-property C09CH ----
+import os as _os, sys as _sys
+_sys.path.insert(0, _os.path.join(_os.path.dirname(_os.path.dirname(_os.path.abspath(__file__))), "models"))
+import chttp as _chttp
+generate = _chttp.generate
+UNPROVED = UNPROVED + _chttp.UNPROVED
+TRUSTED = TRUSTED + _chttp.TRUSTED
+ASSUMPTIONS = ASSUMPTIONS + _chttp.ASSUMPTIONS
+
+
+def run(ctx):
+    import runner
+    cov, f, k = ({}, [], []) if _chttp.replay_only_chttp(ctx) else runner.correspondence("C09", ctx, __import__("props.c09", fromlist=["x"]))
+    return _chttp.second(ctx, "C09", "C09CH", cov, f, k)
